@@ -130,7 +130,7 @@ PROPS = {
     },
     'C19': {
         'level': 'model_checking',
-        'claim': 'Exhaustive within scope: on every transition of the C03 search the instrumented hash functions log (key, table size, function); load == size/n right after every resize request (also while pending, back to the previous geometry, repeated); single consultation with the requested geometry whenever no rehash is pending; while pending every keyed operation cleans between 1 and 3 dirty buckets (read from the public struct before/after), relocates nodes out of at most 3 buckets, and the dirty count strictly falls - by induction over the closure a rehash finishes within bucket-count keyed operations. On enumerated large tables (up to 16384 buckets) every lookup of a pending rehash must clean at most 3 buckets (at least 1 unless it completes the rehash).',
+        'claim': 'Exhaustive within scope: on every transition of the C03 search the instrumented hash functions log (key, table size, function); load == size/n right after every resize request (also while pending, back to the previous geometry, repeated); single consultation with the requested geometry whenever no rehash is pending; while pending every keyed operation cleans between 1 and 3 dirty buckets (read from the public struct before/after), relocates nodes out of at most 3 buckets, and the dirty count strictly falls - by induction over the closure a rehash finishes within bucket-count keyed operations. The state key covers the sweep cursor and the requested count also when no rehash is pending (what completion and clear leave behind is state a later rehash may trust). On enumerated large tables (up to 16384 buckets) every lookup of a pending rehash must clean at most 3 buckets (at least 1 unless it completes the rehash).',
         'note': E1_NOTE + ' Calls to the built-in cstl_hash_mul cannot be logged (tables that never named a function are explored but not call-counted).',
         'technique': 'explicit-state BFS to closure on the real code with per-transition work accounting (hash-call log + dirty-bucket deltas)',
         'jobs': [{'world': 'hash', 'src': 'worlds/hash_world.c', 'lib': [], 'unity': True, 'flavours': BOTH, 'private': True, 'nopriv_wflags': ['-DHASH_NOPRIV=1']}, BIG_JOB_C19],
@@ -139,7 +139,7 @@ PROPS = {
     },
     'C09': {
         'level': 'model_checking',
-        'claim': 'Exhaustive within scope: closure over resize / reserve / shrink_to_fit / clear / sort / reverse / swap on two vectors of different element sizes (one with constructor/destructor), size arguments from small values, size+-1, cap, cap+1 and the SIZE_MAX / SIZE_MAX/es / 1 GiB boundary family; after every operation the data pointer must be the start of a live allocation of at least (capacity+1)*es bytes (128-bit arithmetic), element bytes must survive, at() must abort exactly for i >= size, unsatisfiable reserve must change nothing and unsatisfiable resize must abort, constructor/destructor calls are matched slot by slot. The vector is observed through its public functions only; its raw bytes are part of the state. Plus vectors of 100 to 100000 elements and one of 2^31+5 one-byte elements whose destructor must meet every leaving element exactly once.',
+        'claim': 'Exhaustive within scope: closure over resize / reserve / shrink_to_fit / clear / sort / reverse / swap on two vectors of different element sizes (one with constructor/destructor), size arguments from small values, size+-1, cap, cap+1 and the SIZE_MAX / SIZE_MAX/es / 1 GiB boundary family; after every operation the data pointer must be the start of a live allocation of at least (capacity+1)*es bytes (128-bit arithmetic), element bytes must survive, at() must abort exactly for i >= size, unsatisfiable reserve must change nothing and unsatisfiable resize must abort, constructor/destructor calls are matched slot by slot. The vector is observed through its public functions only; its raw bytes are part of the state; what the storage of the object held before the init function ran (0xA5 bytes, zeros, ones, words that look like small counts) rotates with the configuration. Plus vectors of 100 to 100000 elements and one of 2^31+5 one-byte elements whose destructor must meet every leaving element exactly once.',
         'note': E1_NOTE + ' "Cannot be satisfied" = (n+1)*es unrepresentable or above the 1 GiB line at which the allocation layer refuses deterministically.',
         'technique': 'explicit-state BFS to closure on the real code vs reference model + allocation-layer block accounting',
         'jobs': [{'world': 'vector', 'src': 'worlds/vector_world.c', 'lib': ['vector.c', 'array.c', 'memory.c'], 'flavours': RELDBG_ALWAYS}, BIG_JOB],
@@ -158,7 +158,7 @@ PROPS = {
     },
     'C14': {
         'level': 'model_checking',
-        'claim': 'Exhaustive within scope: closure over alloc (0..4 elements, unrepresentable and refused counts) / set (two external buffers) / slice (into another object and in place, bounds from {0,1,2,len-1,len,len+1,nm,nm+1,nm-off,nm-off+1,SIZE_MAX-1,SIZE_MAX,SIZE_MAX-off+1}) / unslice / reset / release on three array objects; every state audited with at() at {0,len-1,len,SIZE_MAX} against base+(off+i)*sz inside the buffer, and with allocation accounting (the storage block of a buffer is live while a reference exists and dead as soon as the last one is gone; bookkeeping blocks the library may cache are not counted; no double/foreign free). release is driven with and without out-parameter; odd configurations are built with CSTL_ARRAY_INITIALIZER; plus 65535-70000 simultaneous views of one buffer.',
+        'claim': 'Exhaustive within scope: closure over alloc (0..4 elements, unrepresentable and refused counts) / set (two external buffers, each of which may be described by the descriptors of several objects at once) / slice (into another object and in place, bounds from {0,1,2,len-1,len,len+1,nm,nm+1,nm-off,nm-off+1,SIZE_MAX-1,SIZE_MAX,SIZE_MAX-off+1}) / unslice / reset / release on three array objects; every state audited with at() at {0,len-1,len,SIZE_MAX} against base+(off+i)*sz inside the buffer, and with allocation accounting (the storage block of a buffer is live while a reference exists and dead as soon as the last one is gone; bookkeeping blocks the library may cache are not counted; no double/foreign free). release is driven with and without out-parameter; odd configurations are built with CSTL_ARRAY_INITIALIZER; plus 65535-70000 simultaneous views of one buffer.',
         'note': E1_NOTE + ' Open cases accepted either way: slice(0,0) of an object without buffer, and a range past the object\'s own length but inside the buffer.',
         'technique': 'explicit-state BFS to closure on the real code vs view/buffer reference model + allocation accounting',
         'jobs': [{'world': 'array', 'src': 'worlds/array_world.c', 'lib': ['array.c', 'memory.c'], 'flavours': RELDBG_ALWAYS}, BIG_JOB],
